@@ -151,12 +151,8 @@ def check_case(case, ctx):
     tol = k * (cert["scale"] + abs(cert["const"]))
     cert_ok = True
     if cert["max_nonconst"] > tol:
-        ex = oracles.residual_after_entry_equalities(cert["R"], ll)
-        if ex is not None and ex[0] <= tol:
-            ctx.label("known-nonsymmetric-lmi-certificate")
-        else:
-            ctx.fail("certificate-not-of-original-problem", "with %s the exposed multipliers no longer prove the bound: "
-                     "identity residual %.3e (tol %.1e)" % (opts["drh"], cert["max_nonconst"], tol))
+        ctx.fail("certificate-not-of-original-problem", "with %s the exposed multipliers no longer prove the bound: "
+                 "identity residual %.3e (tol %.1e)" % (opts["drh"], cert["max_nonconst"], tol))
         cert_ok = False
     if cert["min_ineq_dual"] < -tol or cert["min_eig_S"] < -tol or cert["min_eig_L"] < -tol:
         ctx.fail("multiplier-sign-after-heuristic", "negative multiplier / non-PSD residual after the heuristic")
